@@ -39,15 +39,9 @@ func (p Params) Validate() error {
 		return errors.New("confirmation number can't set to zero(mempool txs are not reliable)")
 	}
 
-	if p.DepositTaxRate > 0 {
-		if p.MaxDepositTax == 0 || p.DepositTaxRate > 1e4 {
-			return fmt.Errorf("invalid deposit tax: DepositTaxRate(%d) MaxDepositTax(%d)",
-				p.DepositTaxRate, p.MaxDepositTax)
-		}
-		if p.MaxDepositTax > 1e8 {
-			return fmt.Errorf("MaxDepositTax is too large: %d", p.MaxDepositTax)
-		}
-	} else if p.MaxDepositTax != 0 {
+	// the bridge contract may set any cap, with zero meaning "no cap" (see ProcessBridgeRequest and
+	// VerifyDeposit), so an exported state must be importable whatever the cap is
+	if p.DepositTaxRate > 1e4 {
 		return fmt.Errorf("invalid deposit tax: DepositTaxRate(%d) MaxDepositTax(%d)",
 			p.DepositTaxRate, p.MaxDepositTax)
 	}
